@@ -44,12 +44,14 @@ def run(rep, tier, seed):
               "tracer vsym/sym.h; engine/alg.py; z3")
     rep.assume("NOT decided: floating-point behaviour within ~1e-6 of the angle pi; the measure-zero set angle == pi is excluded",
                "Bundles: log/exp act element-wise (proved under C11), not repeated here")
+    items = []
     for g in groups:
         if g in errs:
             rep.fail("C03/%s/instantiates" % g, "BUILD", "g++", {"compiler_output": errs[g].output[-3000:]},
                      {"failing_input_reproduced": False})
             continue
-        check_group(rep, g, tier, seed)
+        items.append(g)
+    rep.parallel(items, lambda r, g: check_group(r, g, tier, seed))
 
 
 def _angle_facts(c, g):
